@@ -33,8 +33,12 @@ import FluteModel.Lemmas.RecvWhole
   STILL A HYPOTHESIS of the closed theorems (`push_data_total_closed`), by name:
     * `AnsOK` - on the XML-PARSER ANSWER (an oracle input of recv's model): every File of a parsed FDT announces
       Transfer-Length < 2^48 and, if it carries an OTI, E < 2^16 (`ObjRecv.WfFile` of `Full.entryOf`).  The FDT schema allows a
-      u64 Transfer-Length; whether the real receiver survives L ≥ 2^48 from an FDT is being replayed by agent orecv
-      (u64 `nL * large` in `block_length`).  Until then this is a named assumption, listed in props.d/C04.json.
+      u64 Transfer-Length and the FDT parser does NOT reject larger values, so no parser lemma can discharge this.  Replayed on
+      the real code by agent orecv (engine orecv, family `fdt-huge-tl`: Transfer-Length in {2^48, 2^63, 2^64-16, 2^64-1} x (E,B)
+      in {(16,4),(1024,64)}, FDT first, then a 40-byte object): no panic, no hang, model and implementation agree line by line,
+      the object ends interrupted - NOT a finding.  Not proved: the u64 arithmetic of `block_length` for L >= 2^48 (C07
+      `block_length_eq_rfc` needs L < 2^48; an overflow would need L > 2^64 - E and an SBN near N-1, i.e. B ~ 2^32, E ~ 2^16, dev
+      profile only).  Hence a NAMED ASSUMPTION (props.d/C04.json); removing it needs a u64-wide C07 or a range check in `attach_fdt`.
   NOT COVERED (by construction of the owners' models, stated so that it is not hidden):
     * the object inside an `FdtReceiver` (TOI 0) is recv's small `Mini` object, not `ObjRecv`;
     * `Full.params` decodes No-Code only (other codecs "nothing decodable", content encodings answer `Err`): third-party codec
